@@ -26,3 +26,50 @@ Definition is_nil {A : Type} (x : option A) : bool :=
 (* xs[i]: None = index out of range *)
 Definition go_index {A : Type} (xs : list A) (i : Z) : option A :=
   if (i <? 0)%Z then None else nth_error xs (Z.to_nat i).
+
+(* ---- strings and byte slices: both are sequences of bytes ([string] of Coq: a list of [ascii]) ---- *)
+From Coq Require Import Ascii.
+From Shoot Require Import Base.Str.
+
+Definition str_len (s : string) : Z := Z.of_nat (String.length s).
+
+(* s[i]: None = index out of range *)
+Definition str_get (s : string) (i : Z) : option ascii :=
+  if (i <? 0)%Z then None else String.get (Z.to_nat i) s.
+
+(* s[lo:hi]: None unless 0 <= lo <= hi <= len(s) *)
+Definition str_slice (s : string) (lo hi : Z) : option string :=
+  if ((0 <=? lo) && (lo <=? hi) && (hi <=? str_len s))%Z
+  then Some (substring (Z.to_nat lo) (Z.to_nat (hi - lo)) s) else None.
+
+(* bytes[i] = c *)
+Fixpoint str_set_nat (s : string) (i : nat) (c : ascii) : option string :=
+  match s, i with
+  | EmptyString, _ => None
+  | String _ r, O => Some (String c r)
+  | String d r, S i' => option_map (String d) (str_set_nat r i' c)
+  end.
+Definition str_set (s : string) (i : Z) (c : ascii) : option string :=
+  if (i <? 0)%Z then None else str_set_nat s (Z.to_nat i) c.
+
+(* xs[i] = x on a slice *)
+Fixpoint list_set_nat {A : Type} (l : list A) (i : nat) (x : A) : option (list A) :=
+  match l, i with
+  | [], _ => None
+  | _ :: r, O => Some (x :: r)
+  | y :: r, S i' => option_map (cons y) (list_set_nat r i' x)
+  end.
+Definition list_set {A : Type} (l : list A) (i : Z) (x : A) : option (list A) :=
+  if (i <? 0)%Z then None else list_set_nat l (Z.to_nat i) x.
+
+(* a byte as a number, and back (Go's byte arithmetic wraps modulo 256) *)
+Definition byte_z (c : ascii) : Z := Z.of_nat (nat_of_ascii c).
+Definition byte_of_z (z : Z) : ascii := ascii_of_nat (Z.to_nat (z mod 256)).
+
+(* strings.Split(s, sep) for a separator of exactly one byte (the only use in the translated code);
+   any other separator is not modelled: the whole string is returned as one piece *)
+Definition go_split (s sep : string) : list string :=
+  match sep with
+  | String c EmptyString => split_c c s
+  | _ => [s]
+  end.
